@@ -60,6 +60,151 @@ fn emit(ctx: &mut Ctx, e: &Expression, rho: &VarEnv, mu: &MemEnv, sigma: &Subst)
     });
 }
 
+
+// ------------------------------------------------------------------ iterator consumption routes
+//
+// `(c13iter e)` → `(routes (name k payload) …)`: the REAL `e.memory_references()` consumed through every std
+// route an overriding `Iterator` method (fold, nth, count, last, size_hint, …) could special-case, fresh and
+// after j calls of `next()`.  The Lean driver regenerates the same list (same order, same k's) twice: from the
+// model's stack machine (`nextN`, `foldFrom`, `drain`) and from the recursive listing `e.addrs`.
+
+fn refs(v: &[&quil_rs::instruction::MemoryReference]) -> Sexp {
+    list(v.iter().map(|r| memref_to_sexp(r)).collect())
+}
+fn opt_ref(o: Option<&quil_rs::instruction::MemoryReference>) -> Sexp {
+    match o {
+        Some(r) => tagged("some", vec![memref_to_sexp(r)]),
+        None => tagged("none", vec![]),
+    }
+}
+fn opt_nat(o: Option<u64>) -> Sexp {
+    match o {
+        Some(n) => tagged("some", vec![nat(n)]),
+        None => tagged("none", vec![]),
+    }
+}
+
+/// the k's used by the per-k routes: 0..=min(len+1, 10) and len-1, len, len+1
+fn route_ks(len: usize) -> Vec<usize> {
+    let mut ks: Vec<usize> = (0..=(len + 1).min(10)).collect();
+    for k in [len.saturating_sub(1), len, len + 1] {
+        if !ks.contains(&k) {
+            ks.push(k);
+        }
+    }
+    ks
+}
+
+fn emit_routes(ctx: &mut Ctx, e: &Expression) {
+    ctx.case(tagged("c13iter", vec![expr_to_sexp(e)]), || {
+        let mut out: Vec<Sexp> = Vec::new();
+        let mut route = |name: &str, k: usize, payload: Sexp| out.push(tagged(name, vec![nat(k as u64), payload]));
+        let fresh = || e.memory_references();
+        let after = |j: usize| {
+            let mut it = e.memory_references();
+            for _ in 0..j {
+                let _ = it.next();
+            }
+            it
+        };
+
+        let collected: Vec<_> = fresh().collect();
+        let len = collected.len();
+        route("collect", 0, refs(&collected));
+        {
+            let mut it = fresh();
+            let mut v = Vec::new();
+            while let Some(r) = it.next() {
+                v.push(r);
+            }
+            // fused: still None afterwards
+            let again = it.next().is_none() && it.next().is_none();
+            route("nextloop", 0, refs(&v));
+            route("fused", 0, boolean(again));
+        }
+        {
+            let mut v = Vec::new();
+            fresh().for_each(|r| v.push(r));
+            route("for_each", 0, refs(&v));
+        }
+        {
+            let v = fresh().fold(Vec::new(), |mut acc, r| {
+                acc.push(r);
+                acc
+            });
+            route("fold", 0, refs(&v));
+        }
+        route("count", 0, nat(fresh().count() as u64));
+        route("last", 0, opt_ref(fresh().last()));
+        route("step_by", 0, refs(&fresh().step_by(2).collect::<Vec<_>>()));
+        route("max_by_key", 0, opt_ref(fresh().max_by_key(|r| r.index)));
+        route("min_by_key", 0, opt_ref(fresh().min_by_key(|r| r.index)));
+        route("reduce", 0, opt_ref(fresh().reduce(|_, b| b)));
+        route("max_index", 0, opt_nat(fresh().map(|r| r.index).max()));
+        route("sum_index", 0, nat(fresh().map(|r| r.index % 1000).sum::<u64>()));
+        {
+            let mut p = fresh().peekable();
+            let mut pairs = Vec::new();
+            loop {
+                let pk = p.peek().copied();
+                let nx = p.next();
+                pairs.push(list(vec![opt_ref(pk), opt_ref(nx)]));
+                if nx.is_none() {
+                    break;
+                }
+            }
+            route("peek_pairs", 0, list(pairs));
+        }
+        for k in route_ks(len) {
+            route("nth", k, opt_ref(fresh().nth(k)));
+            route("skip", k, refs(&fresh().skip(k).collect::<Vec<_>>()));
+            {
+                let mut it = fresh();
+                let first: Vec<_> = it.by_ref().take(k).collect();
+                let rest: Vec<_> = it.collect();
+                route("take_rest", k, list(vec![refs(&first), refs(&rest)]));
+            }
+            {
+                let mut v = Vec::new();
+                after(k).for_each(|r| v.push(r));
+                route("after_for_each", k, refs(&v));
+            }
+            {
+                let v = after(k).fold(Vec::new(), |mut acc, r| {
+                    acc.push(r);
+                    acc
+                });
+                route("after_fold", k, refs(&v));
+            }
+            route("after_count", k, nat(after(k).count() as u64));
+            route("after_collect", k, refs(&after(k).collect::<Vec<_>>()));
+            route("after_last", k, opt_ref(after(k).last()));
+            {
+                let mut p = after(k).peekable();
+                let pk = p.peek().copied();
+                let mut v = Vec::new();
+                p.for_each(|r| v.push(r));
+                route("after_peek_fold", k, list(vec![opt_ref(pk), refs(&v)]));
+            }
+            {
+                let it = after(k);
+                let cl = it.clone();
+                let a: Vec<_> = cl.collect();
+                let mut b = Vec::new();
+                it.for_each(|r| b.push(r));
+                route("after_clone", k, list(vec![refs(&a), refs(&b)]));
+            }
+            route("after_max_index", k, opt_nat(after(k).map(|r| r.index).max()));
+            route("after_skip1", k, refs(&after(k).skip(1).collect::<Vec<_>>()));
+            {
+                let (lo, hi) = after(k).size_hint();
+                route("size_hint", k, list(vec![nat(lo as u64), opt_nat(hi.map(|h| h as u64))]));
+            }
+        }
+        tagged("routes", out)
+    });
+}
+
 fn c(re: f64, im: f64) -> Complex64 {
     Complex64::new(re, im)
 }
@@ -193,6 +338,16 @@ fn corpus(ctx: &mut Ctx) {
     emit(ctx, &w, &vec![], &vec![], &vec![("t".into(), num(-4.0, 0.0))]);
     let w2 = infix(infix(real(1.0), I::Slash, real(-0.0)), I::Plus, infix(real(1.0), I::Slash, var("t")));
     emit(ctx, &w2, &vec![], &vec![], &vec![("t".into(), real(0.0))]);
+    // the iterator consumed through every std route (fresh and mid-iteration): the coordinator's example
+    // ((a[0]+a[1])*b[2]) - sin(c[7]), the memory.rs test expression, the deep chains, expressions without refs
+    let ex = infix(
+        infix(infix(addr("a", 0), I::Plus, addr("a", 1)), I::Star, addr("b", 2)),
+        I::Minus,
+        call(Sine, addr("c", 7)),
+    );
+    for t in [&ex, &big, &left, &right, &unary, &real(1.0), &var("x"), &addr("a", 5), &infix(real(1.0), I::Plus, addr("z", 9))] {
+        emit_routes(ctx, t);
+    }
     // substituting a variable that does not occur, and one that ρ also binds (σ wins)
     emit(ctx, &var("x"), &rho, &mu, &vec![("x".into(), real(7.0)), ("q".into(), real(8.0))]);
 }
@@ -209,6 +364,7 @@ fn exhaustive(ctx: &mut Ctx, alphabet: &Alphabet, depth: usize, skip_below: usiz
         if qvh::expr::depth(e) < skip_below {
             continue;
         }
+        emit_routes(ctx, e);
         for rho in &rhos {
             for sigma in &sigmas {
                 if all_mem {
@@ -228,7 +384,7 @@ fn random_stream(ctx: &mut Ctx, n: usize) {
     let mut rng = ctx.rng(13);
     const VARS: [&str; 4] = ["x", "y", "z", "theta"];
     const REGIONS: [&str; 4] = ["a", "b", "theta", "x"];
-    for _ in 0..n {
+    for case_no in 0..n {
         // leaf alphabet of this case
         let mut leaves = vec![Expression::PiConstant()];
         for _ in 0..3 {
@@ -271,6 +427,9 @@ fn random_stream(ctx: &mut Ctx, n: usize) {
             }
         }
         emit(ctx, &e, &rho, &mu, &sigma);
+        if ctx.quick() || case_no % 4 == 0 {
+            emit_routes(ctx, &e);
+        }
     }
 }
 
